@@ -387,6 +387,34 @@ Proof.
     rewrite (HF1 _ N1) in L1. rewrite (HF1 _ N2) in L2. apply (E g1 g2 a1 a2 i); auto.
 Qed.
 
+(* the future [fid] drops its listener on this event (cancellation, or completion without polling it):
+   the entry is removed and a notification it holds is forwarded *)
+Lemma InvB_drop_own wk l nid look look' fid f :
+  InvB wk l nid look -> look fid = Some f ->
+  (forall g, g <> fid -> look' g = look g) ->
+  (forall f', look' fid = Some f' -> lis f' = None) ->
+  InvB (wk ++ snd (ev_drop_opt (lis f) l)) (fst (ev_drop_opt (lis f) l)) nid look' /\
+  ((l = [] \/ has_notified l = true) ->
+   fst (ev_drop_opt (lis f) l) = [] \/ has_notified (fst (ev_drop_opt (lis f) l)) = true).
+Proof.
+  intros I L HF1 HF2. destruct (lis f) as [id|] eqn:Ls; cbn [ev_drop_opt fst snd].
+  2:{ rewrite app_nil_r. split; [|auto].
+      apply (InvB_frame wk l nid look look' fid); auto. intros f0 L0. rewrite L in L0. inversion L0; subst. exact Ls. }
+  pose proof (InvB_remove wk l nid look look' fid f id I L Ls HF1 HF2) as IR.
+  pose proof (ib_nodup _ _ _ _ I) as ND.
+  unfold ev_drop. destruct (ev_find id l) as [[|w0|a]|] eqn:Fd; cbn [fst snd].
+  - rewrite app_nil_r. split; [exact IR|]. intros [E|H]; [rewrite E in Fd; discriminate|].
+    right. apply has_notified_remove; auto. intros st Q. rewrite Fd in Q. inversion Q; subst. exact Logic.I.
+  - rewrite app_nil_r. split; [exact IR|]. intros [E|H]; [rewrite E in Fd; discriminate|].
+    right. apply has_notified_remove; auto. intros st Q. rewrite Fd in Q. inversion Q; subst. exact Logic.I.
+  - split; [apply InvB_notify; exact IR|]. intros _.
+    destruct (ev_remove id l) as [|e r] eqn:Q; [left; destruct a; reflexivity|]. right.
+    destruct a.
+    + unfold ev_notify. apply mark_has; [lia | discriminate].
+    + apply notify_has; [lia | discriminate].
+  - exfalso. pose proof (ib_listed _ _ _ _ I fid f id L Ls) as Hin. apply ev_find_None in Fd. contradiction.
+Qed.
+
 (* at the end of an operation the wakers called become woken flags *)
 Lemma InvB_wake wk l nid (look : look_t) (look' : look_t) (h : F -> F) :
   (forall k, look' k = option_map h (look k)) ->
